@@ -118,6 +118,10 @@ def units(tier):
                         continue
                     name = "%s[%s%s%s]" % (mode, ",".join(types), " older-reader" if older else "", " +unknown" if unk else "")
                     u.append((name, h_stream, {"types": types, "mode": mode, "older": older, "unknown": unk}))
+    from .c09 import h_long
+
+    for kind in ("string", "message", "packed"):
+        u.append(("long-payload[%s]" % kind, h_long, {"kind": kind}))
     return u
 
 
